@@ -67,6 +67,11 @@ fn pattern_doc(picks: &[(u8, Vec<(u8, u8)>, u8)]) -> String {
         }
         kids.push(e);
     }
+    // local styles switched on and off again inside the document: the effective configuration has them off
+    if picks.first().map(|p| p.2 % 5 == 0).unwrap_or(false) {
+        kids.insert(0, XEl::new("config").a("use-local-styles", "false"));
+        kids.insert(0, XEl::new("config").a("use-local-styles", "true").a("theme", "dark"));
+    }
     gen::svg_root(kids).to_xml()
 }
 
